@@ -33,7 +33,7 @@ func (c16) Rule() string {
 		"Oracle (closed-form layout model): NewOrigin(p).String() == model block; len == toOriginLength(n) == 10*ceil(n/60)+ceil(n/10)+n; fromOriginLength(len) == n; Len() == n before and after Bytes(); Bytes() == p; " +
 		"an undecoded Origin over the model block has Len() == n and Bytes() == p; the fast validator accepts the LF block, the slow parser accepts the LF block and its CRLF twin and the Origin it yields decodes to p; " +
 		"a hand-written minimal GenBank record with that ORIGIN read through seqio.NewAutoScanner gives Len == n and Bytes == p for LF and CRLF; malformed twins: both paths must reject and nothing may panic (the scanner is only watched for panics on them); a twin whose declared length ends at a line end with whole surplus lines after it (an intact block for the block readers) is read as a record with LF and with CRLF line ends: both must be rejected, or both read with the same residues. " +
-		"index widths: NewOrigin of 10^(w-1)+81 residues for w = 5..9 must equal the model block byte for byte, report Len() == n and decode to the residues. streams: 2..4 hand-written records (LF: fast path, CRLF: slow path) scanned to the end first, then every record decoded: Len() and Bytes() of each must be its own. non-trivial: at least one residue (n >= 1) or a length-function range; distinct: canonical case text (kind, n, alphabet, sub-seed, malformation parameters). After decoding, the scanned record is derived through WithFeatures / WithTopology / WithInfo: Len, residues and printed block unchanged; a sixth malformed twin has an empty line before line k. Records that name a CONTIG and carry residues as well are written and read back. A seventh twin pads one line or every line with 1..9 blanks: the LF record and its CRLF twin are read alike (judged at record level only). After a stream was decoded, 700 bytes are appended to the first record's residues and a prefix of them is handed back through WithBytes; half of the streams carry a remark behind ORIGIN."
+		"index widths: NewOrigin of 10^(w-1)+81 residues for w = 5..9 must equal the model block byte for byte, report Len() == n and decode to the residues. streams: 2..4 hand-written records (LF: fast path, CRLF: slow path) scanned to the end first, then every record decoded: Len() and Bytes() of each must be its own. non-trivial: at least one residue (n >= 1) or a length-function range; distinct: canonical case text (kind, n, alphabet, sub-seed, malformation parameters). After decoding, the scanned record is derived through WithFeatures / WithTopology / WithInfo: Len, residues and printed block unchanged; a sixth malformed twin has an empty line before line k. Records that name a CONTIG and carry residues as well are written and read back. A seventh twin pads one line or every line with 1..9 blanks: the LF record and its CRLF twin are read alike (judged at record level only). After a stream was decoded, 700 bytes are appended to the first record's residues and a prefix of them is handed back through WithBytes; half of the streams carry a remark behind ORIGIN. Every malformed twin also stands in a record with a CONTIG line (still an error); records declaring 0 bp over a block of n <= 130 residues are errors with LF and CRLF."
 }
 
 func (c16) Assumptions() []string {
@@ -79,7 +79,7 @@ func (c16) RequiredBuckets(tier string) []string {
 	for _, b := range c16BadBytes {
 		out = append(out, fmt.Sprintf("badbyte|%d", b))
 	}
-	out = append(out, "sep|first-of-line", "sep|inner", "record|contig-only", "record|contig-and-origin", "record|long", "idxw-large|5", "idxw-large|6", "idxw-large|7", "idxw-large|8", "idxw-large|9", "stream:collected-then-decoded", "stream:slow-path", "stream:fast-path", "stream:origin-line-with-a-remark", "malformed:intact-declared-block-then-surplus-lines")
+	out = append(out, "sep|first-of-line", "sep|inner", "record|contig-only", "record|contig-and-origin", "record|long", "idxw-large|5", "idxw-large|6", "idxw-large|7", "idxw-large|8", "idxw-large|9", "stream:collected-then-decoded", "stream:slow-path", "stream:fast-path", "stream:origin-line-with-a-remark", "malformed:intact-declared-block-then-surplus-lines", "malformed:block-in-a-record-with-CONTIG", "malformed:declared-empty-with-a-block")
 	for b := 33; b <= 126; b++ {
 		out = append(out, fmt.Sprintf("res|%d", b))
 	}
@@ -650,6 +650,10 @@ func (m c16) negative(c *fw.Ctx, n int, alpha string, sub int64, k c16Neg) {
 				return
 			}
 		}
+		if d == 0 && n > 0 && k.kind != "trailing-blanks" && (!rr[0].err || !rr[1].err) {
+			c.Violate("record:declared-empty-with-residues-under-ORIGIN-accepted", enc, "an error for the LF record and for its CRLF twin", fmt.Sprintf("LF: %d records error=%v; CRLF: %d records error=%v", rr[0].n, rr[0].err, rr[1].n, rr[1].err))
+			return
+		}
 		if rr[0].err != rr[1].err || rr[0].n != rr[1].n || !bytes.Equal(rr[0].b, rr[1].b) {
 			c.Violate("record:fast-and-slow-path-disagree", enc, "the LF record and its CRLF twin are both rejected, or both read with the same residues",
 				fmt.Sprintf("LF: %d records error=%v %d residues; CRLF: %d records error=%v %d residues", rr[0].n, rr[0].err, len(rr[0].b), rr[1].n, rr[1].err, len(rr[1].b)))
@@ -737,6 +741,30 @@ func (m c16) negative(c *fw.Ctx, n int, alpha string, sub int64, k c16Neg) {
 				} else {
 					w, g := c16Diff(dev.Residues, dec)
 					c.Violate(cl+":slow-accepts-malformed-block", enc, "reject ("+strict.Why+fmt.Sprintf(" on line %d)", strict.Line)+"; fast path rejects; lenient reading: "+w, "accepted: "+g)
+					return
+				}
+			}
+		}
+		// the same malformed block in a record that also names a CONTIG (which
+		// lifts the check of the declared length against the residues, not the
+		// check of the block): still an error.
+		if k.kind != "too-many" && k.kind != "too-few" {
+			rec := bytes.Replace(c16Record(d, blk, false), []byte("ORIGIN      "), []byte("CONTIG      join(U00096.3:1.."+fmt.Sprint(d)+")\nORIGIN      "), 1)
+			if eol == "CRLF" {
+				rec = model.CRLF(rec)
+			}
+			var nrec int
+			var serr error
+			if pn, _, _, _ := fw.Guard(func() {
+				s := seqio.NewAutoScanner(bytes.NewReader(rec))
+				for s.Scan() && nrec < 3 {
+					nrec++
+				}
+				serr = s.Err()
+			}); !pn {
+				c.Bucket("malformed:block-in-a-record-with-CONTIG")
+				if serr == nil {
+					c.Violate(cl+":malformed-block-accepted-in-a-record-with-CONTIG", enc, "an error", fmt.Sprintf("%d records read, no error", nrec))
 					return
 				}
 			}
@@ -855,6 +883,11 @@ func (m c16) sweepOne(c *fw.Ctx, n int) {
 		{kind: "non-printable", pos: (n * 17) % n, b: c16BadBytes[n%len(c16BadBytes)]},
 		{kind: "empty-line", line: (n / 5) % lines},
 		{kind: "trailing-blanks", line: []int{-1, (n / 3) % lines}[n%2], delta: 1 + n%9},
+	}
+	if n <= 130 && n%60 != 0 {
+		// a record that declares no residues and holds a block all the same.
+		negs = append(negs, c16Neg{kind: "too-many", delta: n})
+		c.Bucket("malformed:declared-empty-with-a-block")
 	}
 	if n%60 == 0 {
 		// whole surplus lines: the declared length ends exactly at a line end,
